@@ -31,6 +31,7 @@ type Obligation struct {
 	Guard     Term // reachability / hypothesis
 	Goal      Term
 	Cover     bool // cover obligation: expected SAT
+	BaseLen   int  // cover.call only: script length just before the callee's postconditions were assumed
 	Props     []string
 	Ctx       *Ctx
 	ModelVars []ModelVar // names whose values are wanted in a counterexample
@@ -42,6 +43,7 @@ type Obligation struct {
 	Result  SolverResult
 	Mode    string
 	Retried bool
+	DeadCode bool // cover.call whose site is unreachable in the code itself (before the callee's contract is assumed)
 }
 
 type ModelVar struct {
